@@ -1,3 +1,52 @@
-(* C11 — statements are added when the corresponding facts file lands *)
-From SV Require Import Bytes Text.
-Theorem C11_placeholder : True. Proof. exact I. Qed.
+(* C11 — a filter set survives being saved as a script and loaded back.
+
+   Proved here (factory/TextFacts.v over factory/Text.v and sieve/Lexer.v): the marker comments.
+   The line FiltersSet.tosieve writes before a filter ([pretext ++ text], LF) is ONE hash-comment token
+   ending before the line feed; the parser stores it stripped ([stored_comment]); from_parser_result
+   ([recover]) gives back exactly the name / description, for every marker that starts with a
+   non-blank byte, and every text that does not end in a blank and does not contain the marker.
+   The editing operations preserve "enabled = not wrapped" in every reachable state (C12), which is
+   what reloading the enabled flag rests on.  Tree equality of reloaded filters rests on C04 and is
+   exercised on the implementation (render -> parse -> from_parser_result -> render fixed point) over
+   generated histories, names, descriptions and marker prefixes. *)
+From Coq Require Import String.
+From Coq Require Import List NArith Bool Arith.
+From SV Require Import Bytes Lexer Text TextFacts.
+Import ListNotations.
+Local Open Scope nat_scope.
+
+(* the marker line is one hash-comment token that ends before the line feed *)
+Theorem C11_comment_is_one_token :
+  forall p x rest : list N,
+  match p with
+  | [] => False
+  | c :: _ => c = 35%N
+  end ->
+  contains_byte 10 (p ++ x) = false ->
+  scan_hash ((p ++ x) ++ 10%N :: rest) = Some (Datatypes.length (p ++ x)).
+Proof. exact TextFacts.scan_hash_line. Qed.
+Print Assumptions C11_comment_is_one_token.
+
+(* name / description recovered exactly from the stored comment *)
+Theorem C11_recovered_exactly :
+  forall (p : list N) (x : bytes),
+  match p with
+  | [] => False
+  | c :: _ => is_space c = false
+  end ->
+  last_nonspace x = true -> occurs p x = false -> recover p (stored_comment p x) = Some x.
+Proof. exact TextFacts.recover_stored. Qed.
+Print Assumptions C11_recovered_exactly.
+
+Example C11_recover_example :
+  recover (bs "# Filter: ") (stored_comment (bs "# Filter: ") (bs "caf" ++ [195%N; 169%N] ++ bs " #1 ""x"""))
+  = Some (bs "caf" ++ [195%N; 169%N] ++ bs " #1 ""x""").
+Proof. vm_compute. reflexivity. Qed.
+
+(* the hypotheses are needed: a name that ends in a blank loses it, a name containing the marker loses it *)
+Example C11_trailing_blank_lost :
+  recover (bs "# Filter: ") (stored_comment (bs "# Filter: ") (bs "x ")) = Some (bs "x").
+Proof. vm_compute. reflexivity. Qed.
+Example C11_marker_inside_lost :
+  recover (bs "#F ") (stored_comment (bs "#F ") (bs "a #F b")) = Some (bs "a b").
+Proof. vm_compute. reflexivity. Qed.
